@@ -233,6 +233,15 @@ func (vlog *valueLog) removeValueLogFile(bucket uint32, fid uint32) error {
 	if status != nil {
 		meta, hasMeta = status[manifest.ValueLogID{Bucket: bucket, FileID: fid}]
 	}
+	// That nothing live is left in the segment was decided from LSM entries whose WAL records
+	// may still sit in the WAL's buffer (the overwrites, and the entries GC re-inserted). They
+	// have to be durable before the segment goes: otherwise a crash brings back pointers into
+	// a file that no longer exists.
+	if vlog.db.wal != nil {
+		if err := vlog.db.wal.Sync(); err != nil {
+			return errors.Wrapf(err, "sync wal before removing value log fid %d (bucket %d)", fid, bucket)
+		}
+	}
 	if err := vlog.db.lsm.LogValueLogDelete(bucket, fid); err != nil {
 		return errors.Wrapf(err, "log value log delete fid %d (bucket %d)", fid, bucket)
 	}
